@@ -36,23 +36,64 @@ class Schedule:
         self.doc = doc
 
 
-def _giant(name, static, i, seen):
+def _giant(name, static, i, seen, abs_i=0):
     return FULL
 
 
-def _two_step(name, static, i, seen):
+def _two_step(name, static, i, seen, abs_i=0):
     # regions known before the chunk arrive complete in it; a region
     # defined by the chunk lies beyond it and arrives with the next one
     return FULL if seen else NONE
 
 
-def _trickle(name, static, i, seen):
+TRICKLE_LEVELS = [1, 2, 3, 4]      # extended per class by levels_for()
+
+
+def _trickle(name, static, i, seen, abs_i=0):
+    """Every region grows through the byte counts of TRICKLE_LEVELS (the
+    constants the class compares / slices with, +-1), then completes."""
     if not seen:
         return NONE
-    return [PARTIAL, MIN, FULL, FULL, FULL, FULL][min(i, 5)]
+    if i < len(TRICKLE_LEVELS):
+        return ('bytes', TRICKLE_LEVELS[i])
+    return FULL
 
 
-def _min_only(name, static, i, seen):
+def _small_then_giant(name, static, i, seen, abs_i=0):
+    # a first chunk of a few bytes, then everything else at once
+    if abs_i == 0:
+        return ('bytes', 5)
+    return FULL
+
+
+def levels_for(world, cls, cap=4096):
+    """Byte counts at which partial states are observed: every integer
+    constant of the class (and its bases) up to *cap*, and its
+    neighbours - the lengths the code can distinguish."""
+    import ast as _ast
+    consts = set()
+    for c in cls.mro():
+        for node in _ast.walk(c.node):
+            if isinstance(node, _ast.Constant) and \
+                    isinstance(node.value, int) and \
+                    not isinstance(node.value, bool) and \
+                    0 < node.value <= cap:
+                consts.add(node.value)
+            elif isinstance(node, _ast.Constant) and \
+                    isinstance(node.value, (bytes, str)) and \
+                    0 < len(node.value) <= 16:
+                consts.add(len(node.value))
+    for k, v in cls.attrs.items():
+        if isinstance(v, K) and isinstance(v.v, int) and 0 < v.v <= cap:
+            consts.add(v.v)
+    out = set()
+    for c in consts:
+        out.update((c - 1, c, c + 1))
+    out.update((1, 2))
+    return sorted(x for x in out if 0 < x <= cap)
+
+
+def _min_only(name, static, i, seen, abs_i=0):
     # regions with a min_length stop at exactly that many bytes
     return MINFULL if seen else NONE
 
@@ -61,8 +102,12 @@ SCHEDULES = [
     Schedule('giant', 1, _giant, 'the whole stream as one chunk'),
     Schedule('two-step', 4, _two_step, 'every region arrives complete, one '
              'chunk after the chunk that defined it'),
-    Schedule('trickle', 8, _trickle, 'every region fills in three steps '
-             '(1 byte, min_length / 2 bytes, all)'),
+    Schedule('trickle', 8, _trickle, 'every region grows through the byte '
+             'counts the class can distinguish (its integer constants '
+             '+-1), then completes'),
+    Schedule('small-then-giant', 4, _small_then_giant, 'a first chunk of 5 '
+             'bytes, then everything else in one chunk (regions defined '
+             'by the second chunk complete within it)'),
     Schedule('min-stop', 6, _min_only, 'regions complete at exactly '
              'min_length bytes when they have one, else fully'),
 ]
@@ -126,7 +171,8 @@ class StreamModel:
             if born == i and not static:
                 st['represent'][id(region)] = True
             level = sched.policy(name, static, i - (0 if static else born),
-                                 seen if sched.name != 'giant' else True)
+                                 seen if sched.name not in ('giant', 'small-then-giant')
+                                 else True, i)
             interp2.effect('capture', name, K(i), level)
             model.fill(interp2, region, level)
             return K(None)
@@ -253,6 +299,10 @@ class StreamModel:
         world = self.world
         cls = self.cls
         n = sched.n_chunks
+        if sched.name == 'trickle':
+            global TRICKLE_LEVELS
+            TRICKLE_LEVELS = levels_for(world, cls)
+            n = 2 * len(TRICKLE_LEVELS) + 14
         lens = {'chunk%d' % i: len(image) // n for i in range(n)}
         lens['chunk%d' % (n - 1)] += len(image) - sum(lens.values())
         iv = ImageVal(image, lens)
